@@ -209,6 +209,23 @@ func (exec *BatchExecutor) handleRequest(ctx context.Context, req *kmip.RequestM
 
 // executeItemWithMiddleware executes a KMIP request batch item with the provided middleware.
 func (exec *BatchExecutor) executeItemWithMiddleware(ctx context.Context, bi *kmip.RequestBatchItem) (resp kmip.ResponseBatchItem) {
+	// Last line of defence. Rendering the outcome of a handler runs user code again: the Error, String,
+	// Unwrap, Is or As methods of the error it returned or of the value it panicked with (a typed nil
+	// pointer whose method has a value receiver is enough to make them panic). Such a panic, like a panic
+	// of a batch item middleware, must fail this item only, not the connection goroutine and the process.
+	defer func() {
+		if r := recover(); r != nil {
+			slog.Error("Batch item processing panicked", "operation", ttlv.EnumStr(bi.Operation))
+			ClearIdPlaceholder(ctx)
+			resp = kmip.ResponseBatchItem{
+				Operation:         bi.Operation,
+				UniqueBatchItemID: bi.UniqueBatchItemID,
+				ResultStatus:      kmip.ResultStatusOperationFailed,
+				ResultReason:      kmip.ResultReasonGeneralFailure,
+				ResultMessage:     "Internal Server Error",
+			}
+		}
+	}()
 	respBi, err := exec.biNextFrom(0)(ctx, bi)
 	if respBi == nil {
 		// A middleware returned no response item (typically together with an error).
